@@ -116,3 +116,16 @@ claim("C14", category="fault_enumeration", engine="arraymc + crashmc",
            "must be refused with 'already in use' and write nothing; after release the first command completes and sync proceeds.",
       note="SIGABRT from the tool's own os_abort counts as a failing refusal (v2 content + reduced hashsize in the configuration ends that way)",
       design="3 C14")
+
+claim("C15", category="model_checking", engine="arraymc",
+      technique="exhaustive enumeration of per-stripe book assignments (planted through the independent content encoder) x scrub plans on the real CLI, verified set taken from the parity-read trace",
+      text="On a real synced 6-stripe array the per-stripe info words are set to EVERY assignment of three ages (30/15/5 days; 3^6) with the young "
+           "ones just-synced, and to every subset of bad marks; the real scrub is run under 6 (quick) / 15 (thorough) (plan, -o) combinations incl. "
+           "bad/new/full/0/percentages/default. The set of stripes whose parity was actually read must contain every bad stripe, equal the used / "
+           "just-synced / bad set for full / new / bad, and for a percentage stay within ceil(p*blockmax/100), include no stripe younger than the age "
+           "limit and skip no eligible stripe strictly older than a verified one. Afterwards verified-correct stripes have time=now and cleared "
+           "marks, unverified stripes are unchanged; one damage (data, parity, file changed since sync) at every stripe: silent errors are marked bad "
+           "without refreshing the time, changed files are never marked bad; exit status fails iff verified damage; scrub -> fix -e -> scrub -p bad at "
+           "every stripe clears the mark; 20 default scrubs 11 days apart cover every stripe; the C12 monitor holds on every run.",
+      note="tie rule among equally old stripes is free; the clock is frozen per command through libvp",
+      design="3 C15")
